@@ -109,10 +109,10 @@ theorem linkStep_ok {M : List MapRow} {r : LinkR} {aCols : Option Nat} {t : Nat}
             · cases h
             · split at h
               · cases h
-              · rename_i h3
+              · rename_i cs hcs
                 split at h
                 · cases h
-                · rename_i cs hcs
+                · rename_i h3
                   refine ⟨k, cs, rfl, ?_, ?_, ?_, hcs, by cases h; rfl⟩
                   · simpa using h1
                   · simpa [vars2] using h3
